@@ -3,7 +3,7 @@
     and serialising interpreters and ProofExp.modus_ponens run the same code).  Inner [None] = AssertionError.
     The documented rule is evaluated on full expansions.  Partial-correctness form over the fuel. *)
 From Coq Require Import NArith List Bool.
-From Pi2 Require Import ML.Syntax ML.Subst Py.Pattern Py.PatFacts Py.ExpandFacts Py.RulesFacts Py.Termination Py.Total Py.Witness.
+From Pi2 Require Import ML.Syntax ML.Subst Py.Pattern Py.PatFacts Py.ExpandFacts Py.RulesFacts Py.Termination Py.Total Py.Bridge Py.Current Py.Witness.
 Import ListNotations.
 Open Scope N_scope.
 
@@ -82,3 +82,43 @@ Proof.
   exists d5_pat, d5_delta, 30%nat, (PInst (PImp (pphi 0) (pphi 0)) [(0, PEVar 7)]).
   split; [vm_compute; reflexivity|]. vm_compute. discriminate.
 Qed.
+
+(** ================================================================================================
+    For the configuration the CURRENT code is in ([flags_current], D9d present), on corner-free premises
+    (Py/Bridge.v; see Props/C12.v); the returned conclusion is corner-free again. *)
+Theorem C07_bridge_mp : forall se ss f n L R, corner_free se ss L = true -> corner_free se ss R = true ->
+  basic_mp f n L R = basic_mp (with_keep f) n L R.
+Proof. exact basic_mp_bridge. Qed.
+Theorem C07_bridge_gen : forall se ss f n C x, corner_free se ss C = true -> basic_gen f n C x = basic_gen (with_keep f) n C x.
+Proof. exact basic_gen_bridge. Qed.
+Theorem C07_bridge_inst : forall se ss f n C d, corner_free se ss C = true -> cfd se ss d = true ->
+  basic_inst f n C d = basic_inst (with_keep f) n C d.
+Proof. exact basic_inst_bridge. Qed.
+
+Theorem C07_mp_exact_current_code : forall se ss n L R res,
+  corner_free se ss L = true -> corner_free se ss R = true -> basic_mp flags_current n L R = Some res ->
+  forall c', (exists c, res = Some c /\ corner_free se ss c = true /\ expand flags_current c = c') <->
+             expand flags_current L = Imp (expand flags_current R) c'.
+Proof. exact (fun se ss => mp_exact_cur se ss flags_current eq_refl). Qed.
+Theorem C07_gen_exact_current_code : forall se ss n C x res,
+  corner_free se ss C = true -> basic_gen flags_current n C x = Some res ->
+  forall c', (exists c, res = Some c /\ corner_free se ss c = true /\ expand flags_current c = c') <->
+             (exists l r, expand flags_current C = Imp l r /\ e_fresh r x = true /\ c' = Imp (Ex x l) r).
+Proof. exact (fun se ss => gen_exact_cur se ss flags_current eq_refl eq_refl). Qed.
+Theorem C07_inst_exact_current_code : forall se ss n C d c,
+  corner_free se ss C = true -> cfd se ss d = true -> basic_inst flags_current n C d = Some c ->
+  expand flags_current c = p_inst flags_current (expand flags_current C) (expand_delta flags_current d).
+Proof. exact (fun se ss => inst_exact_cur se ss flags_current eq_refl). Qed.
+Print Assumptions C07_gen_exact_current_code.
+
+Example C07_ex_current_unconstrained :
+  corner_free [1] [] (PImp (neg_p (pphi 0)) (PESub (pphi 1) 1 (PEVar 2))) = true /\
+  basic_mp flags_current 30 (PImp (neg_p (pphi 0)) (PESub (pphi 1) 1 (PEVar 2))) (PImp (pphi 0) bot_p)
+    = Some (Some (PESub (pphi 1) 1 (PEVar 2))).
+Proof. vm_compute. split; reflexivity. Qed.
+Example C07_ex_current_constrained :
+  corner_free [1] [] (PImp (pphi 0) (and_p (PMVar 1 [3] [] [] [] []) (PESub (pphi 2) 1 (PEVar 2)))) = true /\
+  basic_gen flags_current 30 (PImp (pphi 0) (and_p (PMVar 1 [3] [] [] [] []) (PESub (pphi 2) 1 (PEVar 2)))) 3 = Some None /\
+  basic_gen flags_current 30 (PImp (pphi 0) (and_p (PMVar 1 [3] [] [] [] []) (PEVar 2))) 3
+    = Some (Some (PImp (PEx 3 (pphi 0)) (and_p (PMVar 1 [3] [] [] [] []) (PEVar 2)))).
+Proof. vm_compute. repeat split; reflexivity. Qed.
